@@ -144,11 +144,11 @@ def record(sc):
                         e["lq"] = [f4(v) for v in mixture_logpdf(X, Xq, np.atleast_2d(q.cov), q.weights)]
                     events.append(e)
                 npop = len(res.populations)
-            events.append(dict(ev="end", raised="", nsim=int(res.n_sim)))
+            events.append(dict(ev="end", raised="", rtype="", nsim=int(res.n_sim)))
     except Hang:
-        events.append(dict(ev="end", raised="Hang", nsim=-1))
+        events.append(dict(ev="end", raised="Hang", rtype="Hang", nsim=-1))
     except Exception as ex:
-        events.append(dict(ev="end", raised="%s: %s" % (type(ex).__name__, str(ex)[:100]), nsim=-1))
+        events.append(dict(ev="end", raised="%s: %s" % (type(ex).__name__, str(ex)[:100]), rtype=type(ex).__name__, nsim=-1))
     return tr
 
 
@@ -211,6 +211,8 @@ def run(ctx):
     inv = ["NeverRaises", "UsesLatestPopulation", "QuantileOfPrevious", "NSimAdds", "OneRoundPerListEntry"]
     ctx.tlc("Smc", "MC_Smc", cfg_text=mc_cfg(True, inv), expect_actions=["SetObjective", "EndRound", "Extract"], timeout=600)
     ctx.tlc("Smc", "MC_Smc_F22", cfg_text=mc_cfg(False, ["NeverRaises"]), expect_ok=False, timeout=600)
+    from harness.props import x_adaptive_smc
+    x_adaptive_smc.check_adaptive(ctx)      # extension: AdaptiveDistanceSMC / AdaptiveThresholdSMC (E: clauses, drift only)
     scs = scenarios(ctx)
     traces = check_scenarios(ctx, scs)
     for i in (0, len(scs) - 1):
